@@ -90,6 +90,10 @@ func GenC06(t *rapid.T) ScriptCase {
 	c.Steps = rapid.SliceOfN(step, minLen, maxSteps()).Draw(t, "steps")
 	c.Burst = genBurst(t)
 	addIdle(t, &c)
+	if rapid.IntRange(0, 9).Draw(t, "temperr") == 0 {
+		at := rapid.IntRange(0, len(c.Steps)).Draw(t, "temperrat")
+		c.Steps = append(c.Steps[:at], append([]Step{{Op: "temperr"}}, c.Steps[at:]...)...)
+	}
 	return c
 }
 
